@@ -7,7 +7,7 @@
    Record ids are 0,1,2,... in write order; view = all ids in the retained files read oldest to newest.   *)
 From Coq Require Import List ZArith Bool.
 Import ListNotations.
-Require Import V.C23.Model V.C23.Proofs.
+Require Import V.C23.Model V.C23.Proofs V.C23.Multi.
 Open Scope Z_scope.
 
 (* Retained files read oldest to newest, followed by what is still buffered, hold exactly the records
@@ -49,6 +49,34 @@ Theorem no_rotation_no_loss : forall c t0 fu ops, keep c = O -> dropped (run c t
 Proof. exact no_rotation_no_loss_l. Qed.
 Print Assumptions no_rotation_no_loss.
 
+(* ---- several Logs per Logger (mrun c n ...: n logs, every logger operation visits all of them phase by phase,
+   the crash fuel is handed from log to log: a crash point is any primitive operation of any log) ---- *)
+
+(* the crash statement holds for EVERY log of the logger: its surviving files hold dropped..b-1 with b at least
+   the number of records written to THAT log before ITS most recent completed flush *)
+Theorem crash_keeps_flushed_every_log : forall c n t0 fu ops s pre,
+  In s (lgs (mrun c n t0 fu ops)) -> is_prefix pre (bufc s) ->
+  exists b, (flushed s <= b <= next s)%nat /\ (dropped s <= b)%nat /\
+            view (survivors s pre) = seq (dropped s) (b - dropped s).
+Proof. exact mcrash_l. Qed.
+Print Assumptions crash_keeps_flushed_every_log.
+
+Theorem crash_keeps_flushed_every_log_from : forall c m ops s pre, MDE c m ->
+  In s (lgs (mrunfrom c m ops)) -> is_prefix pre (bufc s) ->
+  exists b, (flushed s <= b <= next s)%nat /\ (dropped s <= b)%nat /\
+            view (survivors s pre) = seq (dropped s) (b - dropped s).
+Proof. exact mcrash_from_l. Qed.
+Print Assumptions crash_keeps_flushed_every_log_from.
+
+(* a completed Logger.flush() (the process survived it) has flushed every log: for each log everything written
+   to it so far counts as flushed and nothing is left in its buffer -- whatever rule the log has and however
+   long ago its last record was written *)
+Theorem logger_flush_flushes_every_log : forall c m, Forall (E c) (lgs m) ->
+  gcr (mphase (fun _ => prim f_flush) m) = false ->
+  Forall (fun s => flushed s = next s /\ ids (bufc s) = []) (lgs (mphase (fun _ => prim f_flush) m)).
+Proof. exact mflush_all_l. Qed.
+Print Assumptions logger_flush_flushes_every_log.
+
 (* non-vacuity: testCycle's schedule (keep 2, cycle 0.5 s, threshold 10 bytes): three retained files *)
 Definition c_ex : cfg := {| keep := 2; cycleP := 4; fsize := 10; flushP := 24; reuse := false; hsz := 23 |}.
 Definition ops_ex : list op :=
@@ -63,3 +91,12 @@ Example c23_crash_in_chain :
   let s := run c_ex 0 (Some 43%nat) ops_ex in
   crashed s = true /\ map oids (files s) = [[5; 6; 7; 8]; []; [9; 10; 11; 12]]%nat /\ dropped s = 5%nat.
 Proof. vm_compute. repeat split; reflexivity. Qed.
+
+(* two logs (a once-like log: one record at START; an always-like log): after the flush timer fired at tick 8
+   the once-like log's single record is durable although it was written at stamp 0 *)
+Definition c_ex2 : cfg := {| keep := 0; cycleP := 0; fsize := 0; flushP := 8; reuse := false; hsz := 15 |}.
+Example c23_two_logs :
+  let m := mrun c_ex2 2 0 None (MStart [[6]; [6]] :: flat_map (fun _ => [MTick 1; MRun [[]; [8]]]) (seq 0 9)) in
+  map (fun s => (map oids (files s), flushed s)) (lgs m) =
+  [([[0]], 1); ([[0; 1; 2; 3; 4; 5; 6; 7; 8]], 9)]%nat.
+Proof. vm_compute. reflexivity. Qed.
